@@ -5,6 +5,36 @@ from . import core
 from .flavours import Flavour
 
 
+class StepTimeout(BaseException):
+    pass
+
+
+class time_limit:
+    """a step (operation + observations) that does not come back - e.g. a parent chain that has become a cycle - is an
+    observation, not a reason for the machinery to hang: SIGALRM interrupts it (main thread of a worker process)"""
+
+    def __init__(self, seconds):
+        self.seconds = seconds
+
+    def __enter__(self):
+        import signal
+        import threading
+        self.active = threading.current_thread() is threading.main_thread()
+        if self.active:
+            def onalarm(signum, frame):
+                raise StepTimeout()
+            self.old = signal.signal(signal.SIGALRM, onalarm)
+            signal.setitimer(signal.ITIMER_REAL, self.seconds)
+        return self
+
+    def __exit__(self, *a):
+        import signal
+        if self.active:
+            signal.setitimer(signal.ITIMER_REAL, 0)
+            signal.signal(signal.SIGALRM, self.old)
+        return False
+
+
 def probe_dids(fl: Flavour, maxd: int):
     ds = {fl.model_default_did(d) for d in range(1, maxd + 1)}
     return sorted(ds | {11, 12})
@@ -50,6 +80,14 @@ def lookups(b: core.Built, st: dict, maxd: int) -> dict:
 
 def snapshot(b: core.Built):
     """re-bind ids: live nodes in pre-order become 1..n (what TLC's Compact does)"""
+    try:
+        with time_limit(60):
+            return _snapshot(b)
+    except StepTimeout:
+        raise core.Unprojectable("did_not_terminate") from None
+
+
+def _snapshot(b: core.Built):
     proj = core.project(b)
     st = proj["st"]
     order = []
@@ -71,6 +109,18 @@ def snapshot(b: core.Built):
 def run_step(b: core.Built, op: dict, rec_id: int, src: core.Built | None = None, maxd: int = 4,
              pre_st: dict | None = None, extra: dict | None = None) -> dict:
     """Execute op on b (ids must be compact) and return the trace record."""
+    try:
+        with time_limit(60):
+            return _run_step(b, op, rec_id, src, maxd, pre_st, extra)
+    except StepTimeout:
+        rec = {"id": rec_id, "fl": b.fl.name, "pre": pre_st if pre_st is not None else {}, "op": op, "status": "ok",
+               "bad": "did_not_terminate"}
+        if extra:
+            rec.update(extra)
+        return rec
+
+
+def _run_step(b, op, rec_id, src, maxd, pre_st, extra):
     fl = b.fl
     if pre_st is None:
         pre_st = core.project(b)["st"]
@@ -84,7 +134,13 @@ def run_step(b: core.Built, op: dict, rec_id: int, src: core.Built | None = None
         proj = core.project(b, probe_dids(fl, maxd), pre_nids)
         rec["post"] = proj["st"]
         rec["obs"] = proj["obs"]
-        rec["obs"].update(lookups(b, proj["st"], maxd))
+        try:
+            rec["obs"].update(lookups(b, proj["st"], maxd))
+        except core.Unprojectable:
+            raise
+        except Exception:
+            rec["badwhere"] = "lookups"     # the structure could be read, the lookups / clone queries raised
+            raise
         # an explicit node_id given to this call: found afterwards iff the call was carried out
         rec["obs"]["new_nid"] = [] if b.last_nid is None else [0 if b.tree.find_first(node_id=b.last_nid) is None else 1]
         rec["ret"] = core.ret_id(b, r) if status == "ok" else 0
